@@ -142,9 +142,13 @@ def run_config(chk, config):
 
     def on_tr_loop(frame, head, H, res, havoc, lid):
         # per-iteration discipline of a hand-written loop over the greedy result vector
-        if eng.mute or frame.key != a.ctrl_try_read["key"]:
+        if eng.mute or not (frame.key == a.ctrl_try_read["key"] or frame.ctxname.split(" > ")[0] == a.ctrl_try_read["name"]):
+            return
+        if "try_read_greedy" in frame.ctxname:
             return
         src = H.ghost.get("greedy_result")
+        if src is None or not any(e[0] == "iter_next" and e[2] == src for b in res["back"] for e in b.events()[H.ntrace:]):
+            return
         for b in res["back"]:
             evs = b.events()[H.ntrace:]
             nx = [e for e in evs if e[0] == "iter_next"]
@@ -187,7 +191,9 @@ def run_config(chk, config):
             if not tested:
                 # no recognised all-ok idiom (any(is_err) / all(is_ok)).  If the function walks the result vector in a
                 # loop of its own, the test is present but not of a recognised shape: undecided, not an alarm.
-                done = [l for l in st.ghost.get("loops_done", ()) if l[0] == a.ctrl_try_read["key"]]
+                # loops of try_read itself, of a helper it calls, or of a std consumer run on its behalf, that walked the
+                # greedy result vector
+                done = [l for l in st.ghost.get("loops_done", ()) if any(x[0] == l for x in loopfacts)]
                 if done:
                     # hand-written partition loop.  Counting argument: every iteration takes one element of the result
                     # vector and pushes it to exactly one list, Ok payloads only to the accepted list; so an accepted
